@@ -199,6 +199,14 @@ class Extractor:
                 vals = list(c)
             except TypeError:
                 raise AnalysisError("validate: container does not fold: %s" % canon(node))
+            if vals and all(isinstance(x, EnumMember) for x in vals):
+                names = frozenset(x.name for x in vals)
+                member = pol == (opn is ast.In)
+                if member:
+                    nd = Dom(IntSet(), False, d.syms & names)
+                else:
+                    nd = d.with_(syms=d.syms - names)
+                return self._set(st, var, nd)
             if not all(isinstance(x, int) for x in vals):
                 raise AnalysisError("validate: non-integer container")
             inset = IntSet.of(vals)
